@@ -67,13 +67,15 @@ theorem invalidated_items_leave (b : List (Entry Key)) (inv : Key → Key → Bo
 /-- `add_broadcast` rejects empty and oversized items before calling the handler; an item the handler
     accepts is stored whole with the full number of transmissions. -/
 theorem add_broadcast_stores_whole_item (E : Env) (data : Bytes) (c : Ctx) (key : Key) (h' : HSt)
-    (h1 : data ≠ []) (h2 : data.length ≤ c.s.cfg.mps) (h3 : E.handler.receive c.s.hst data none = some (some key, h')) :
+    (h1 : data ≠ []) (h2 : data.length ≤ c.s.cfg.mps) (h2' : data.length ≤ 65535)
+    (h3 : E.handler.receive c.s.hst data none = some (some key, h')) :
     ∃ c', addBroadcast E data c = .ok true c' ∧
       c'.s.custom = addOrReplace c.s.custom E.handler.invalidates key data c.s.cfg.maxTx ∧ c'.eff = c.eff := by
   unfold addBroadcast
   have he : data.isEmpty = false := by cases data with | nil => exact absurd rfl h1 | cons _ _ => rfl
   have hl : ¬ data.length > c.s.cfg.mps := by omega
-  simp [he, hl, h3]
+  have hl' : ¬ 65535 < data.length := by omega
+  simp [he, hl, hl', h3]
 
 /-- The receiving side hands the handler exactly the items of the tail, in order, each once, with the
     sender's identity: one loop iteration reads `u16 length`, takes exactly that many bytes and goes on
